@@ -96,9 +96,10 @@ class MgrV:
 class ObjV:
     """generic object with symbolic attributes (e.g. _ReorderingContext instance, autoref wrappers)"""
 
-    def __init__(self, cls, attrs=None):
+    def __init__(self, cls, attrs=None, ident=None):
         self.cls = cls
-        self.attrs = attrs or {}
+        self.attrs = attrs if attrs is not None else {}
+        self.ident = ident if ident is not None else fresh('objid')
 
 
 class FieldV:
@@ -126,6 +127,8 @@ NONE = lambda: IntV(IntVal(0), BoolVal(True))  # noqa
 def is_none(v):
     if isinstance(v, (IntV, NameV)):
         return v.none if v.none is not None else BoolVal(False)
+    if isinstance(v, ObjV):
+        return getattr(v, 'none', BoolVal(False))
     return BoolVal(False)
 
 
@@ -143,7 +146,9 @@ def truth(v):
         return nonempty(v)
     if isinstance(v, StrV):
         return BoolVal(bool(v.v))
-    if isinstance(v, (MgrV, ObjV, ExcClassV)):
+    if isinstance(v, ObjV):
+        return Not(is_none(v))
+    if isinstance(v, (MgrV, ExcClassV)):
         return BoolVal(True)
     raise Unsupported(f'truth of {type(v).__name__}')
 
@@ -343,10 +348,16 @@ class Exec:
             return IntV(-z)
         if isinstance(e.op, ast.Not):
             return BoolV(Not(truth(v)))
+        if isinstance(e.op, ast.Invert) and isinstance(v, ObjV) and f'{v.cls}.__invert__' in self.reg:
+            return self.call_contract(f'{v.cls}.__invert__', [v], {}, p, e)
         raise Unsupported(f'unary {type(e.op).__name__}')
 
     def ev_BinOp(self, e, p):
         a, b = self.ev(e.left, p), self.ev(e.right, p)
+        if isinstance(a, ObjV) and isinstance(e.op, (ast.BitOr, ast.BitAnd)):
+            m = '__or__' if isinstance(e.op, ast.BitOr) else '__and__'
+            if f'{a.cls}.{m}' in self.reg:
+                return self.call_contract(f'{a.cls}.{m}', [a, b], {}, p, e)
         if isinstance(e.op, ast.Add) and isinstance(b, StrV):
             if isinstance(a, (StrV, NameV)):
                 return StrV('<str>')
@@ -364,18 +375,20 @@ class Exec:
     def ev_BoolOp(self, e, p):
         # operands without calls are evaluated eagerly (no side effects); Python value semantics of and/or
         # are only needed as truth values at our use sites
-        vs = []
-        pushed = 0
-        try:
-            for x in e.values:
+        vs, guards = [], []
+        for x in e.values:
+            # short circuit: operand k is evaluated only if the earlier ones were true (and) / false (or); facts learnt
+            # while evaluating it (callee postconditions) hold under that guard only
+            n0 = len(p.pc)
+            p.pc.extend(guards)
+            try:
                 t = truth(self.ev(x, p))
-                vs.append(t)
-                # short circuit: later operands are evaluated only if this one is true (and) / false (or)
-                p.pc.append(t if isinstance(e.op, ast.And) else Not(t))
-                pushed += 1
-        finally:
-            for _ in range(pushed):
-                p.pc.pop()
+            finally:
+                new = p.pc[n0 + len(guards):]
+                del p.pc[n0:]
+            p.pc.extend([Implies(And(*guards), f_) if guards else f_ for f_ in new])
+            vs.append(t)
+            guards.append(t if isinstance(e.op, ast.And) else Not(t))
         return BoolV(And(*vs) if isinstance(e.op, ast.And) else Or(*vs))
 
     def ev_IfExp(self, e, p):
@@ -408,6 +421,10 @@ class Exec:
             return BoolV({ast.LtE: Or(zero, diff), ast.Lt: And(Not(zero), diff), ast.Gt: And(Not(zero), Not(diff)),
                           ast.GtE: Or(zero, Not(diff))}[type(op)])
         a, b = self.ev(l, p), self.ev(r, p)
+        if isinstance(a, ObjV) and isinstance(op, (ast.Eq, ast.NotEq)) and not isinstance(b, IntV):
+            m = '__eq__' if isinstance(op, ast.Eq) else '__ne__'
+            if f'{a.cls}.{m}' in self.reg:
+                return self.call_contract(f'{a.cls}.{m}', [a, b], {}, p, e)
         if isinstance(op, (ast.Is, ast.Eq)):
             return BoolV(self.eq(a, b, isinstance(op, ast.Is)))
         if isinstance(op, (ast.IsNot, ast.NotEq)):
@@ -424,6 +441,8 @@ class Exec:
             return BoolVal(a.v == b.v)
         if isinstance(a, MgrV) and isinstance(b, MgrV):
             return BoolVal(a.key == b.key)
+        if isinstance(a, ObjV) and isinstance(b, ObjV):
+            return BoolVal(True) if a is b else a.ident == b.ident
         if isinstance(a, ExcClassV) and isinstance(b, ExcClassV):
             return BoolVal(a.name == b.name)
         if isinstance(a, ExcClassV) or isinstance(b, ExcClassV):
@@ -438,7 +457,11 @@ class Exec:
         if isinstance(a, (NameV, IntV)) and isinstance(b, (NameV, IntV)):
             # comparison with None across kinds
             return And(is_none(a), is_none(b))
-        objs = (DictV, SetV, ListV, MgrV, ObjV, FieldV, TupV, StrV)
+        if isinstance(a, ObjV) and isinstance(b, IntV):
+            return And(is_none(a), is_none(b))
+        if isinstance(b, ObjV) and isinstance(a, IntV):
+            return And(is_none(a), is_none(b))
+        objs = (DictV, SetV, ListV, MgrV, FieldV, TupV, StrV)
         if (isinstance(a, objs) and isinstance(b, IntV)) or (isinstance(b, objs) and isinstance(a, IntV)):
             # an object is never None / never equal to an int
             return BoolVal(False)
@@ -482,6 +505,9 @@ class Exec:
         if kind == 'mgr':
             # `u in self`  ->  abs(u) in _succ
             return obj.dom[absz(zint(key, self, p))]
+        if kind == 'object':
+            r = self.call_contract(f'{obj.cls}.__contains__', [obj, key], {}, p, ast.Constant(value=None, lineno=line))
+            return truth(r)
         if kind == 'local':
             if isinstance(obj, (DictV, SetV)):
                 if obj.kkind == 'name':
@@ -503,6 +529,8 @@ class Exec:
         v = self.ev(e, p)
         if isinstance(v, (DictV, SetV, ListV)):
             return ('local', v)
+        if isinstance(v, ObjV) and f'{v.cls}.__contains__' in self.reg:
+            return ('object', v)
         raise Unsupported(f'container {ast.unparse(e)}@{e.lineno}')
 
     def as_fork(self, v, p):
@@ -605,7 +633,12 @@ class Exec:
             raise Unsupported(f'attr {a}@{e.lineno}')
         v = self.ev(e.value, p)
         if isinstance(v, ObjV) and e.attr in v.attrs:
+            if hasattr(v, 'none'):
+                self.oblige(p, f'attributeerror:None.{e.attr}@{e.lineno}', Not(v.none), e.lineno)
             return v.attrs[e.attr]
+        if isinstance(v, ObjV) and f'{v.cls}.{e.attr}' in self.reg:
+            # property of a modelled object
+            return self.call_contract(f'{v.cls}.{e.attr}', [v], {}, p, e)
         raise Unsupported(f'attribute {ast.unparse(e)}@{e.lineno}')
 
     # ------------------------------------------------------------------ comprehensions (recognised idiom)
@@ -748,7 +781,10 @@ class Exec:
         kwargs = {k.arg: self.ev(k.value, p) for k in e.keywords if k.arg is not None}
         if recv is not None:
             args = [recv] + args
-        return self.call_contract(qual, args, kwargs, p, e)
+        r = self.call_contract(qual, args, kwargs, p, e)
+        if qual.endswith('.__init__') and isinstance(recv, ObjV):
+            return recv
+        return r
 
     def resolve(self, f, p, line):
         """qualified contract name and receiver"""
@@ -758,11 +794,15 @@ class Exec:
             q = f'{self.module}.{f.id}'
             if q in self.reg:
                 return q, None
+            if q + '.__init__' in self.reg:
+                return q + '.__init__', ObjV(q, {})       # class instantiation
             raise Unsupported(f'call to {f.id}@{line} (no contract)')
         if isinstance(f, ast.Attribute):
             mv = self.mgr_of_expr(f.value, p)
             if mv is not None:
                 q = f'{mv.cls}.{f.attr}'
+                if self.module == 'dd.autoref' and f.attr in ('incref', 'decref') and q + '!external' in self.reg:
+                    return q + '!external', mv      # references taken / released by handles are *external* references
                 if q in self.reg or any(k.startswith(q + ':') for k in self.reg):
                     return q, mv
                 raise Unsupported(f'call to {q}@{line} (no contract)')
@@ -840,6 +880,9 @@ class Exec:
             return BoolV(BoolVal(isinstance(v, (BoolV, IntV))) if not isinstance(v, IntV) or v.none is None else Not(v.none))
         if t == 'dict':
             return BoolV(BoolVal(isinstance(v, DictV)))
+        if t in ('Function', 'BDD'):
+            # handle parameters are Function objects by kind (other types are outside the model)
+            return BoolV(BoolVal(isinstance(v, ObjV) and v.cls.endswith('.' + t)))
         raise Unsupported(f'isinstance {t}')
 
     def builtin_dict(self, e, p):
@@ -1131,7 +1174,10 @@ class Exec:
                 if (v.kkind, v.vkind) != (k_, vk_):
                     e2 = self.empty_dict(e, vk_, k_)
                     v.has, v.val, v.kkind, v.vkind = e2.has, e2.val, k_, vk_
-        mkey = bound[c.mgr].key if c.mgr in bound and isinstance(bound[c.mgr], MgrV) else None
+        if callable(c.mgr):
+            mkey = c.mgr(bound)
+        else:
+            mkey = bound[c.mgr].key if c.mgr in bound and isinstance(bound[c.mgr], MgrV) else None
         S0 = p.mgrs[mkey] if mkey is not None else None
         self._check_none = True
         zargs = self.z_args(c, bound, p)
@@ -1167,7 +1213,7 @@ class Exec:
         if getattr(self, 'qmode', None):
             raise Unsupported(f'call to {qual} inside a comprehension@{line}')
         S1 = State(base=S0, modifies=c.modifies) if (c.modifies and S0 is not None) else S0
-        ret, rz = self.fresh_ret(c)
+        ret, rz = self.fresh_ret(c, bound)
         muts = {}
         for nm in c.mutates:
             cont = bound[nm]
@@ -1183,6 +1229,8 @@ class Exec:
             p.pc.append(g)
         if mkey is not None:
             p.mgrs[mkey] = S1
+        if getattr(c, 'on_return', None):
+            c.on_return(bound, ret)
         return ret
 
     def z_args(self, c, bound, p):
@@ -1208,11 +1256,34 @@ class Exec:
                 out[n + '_none'] = is_none(v)
             elif isinstance(v, StrV):
                 out[n] = v.v
+            elif isinstance(v, IntV) and kind in ('opthandle',):
+                out[n] = v.z
+                out[n + '_none'] = is_none(v)
+                out[n + '_obj'] = None
+            elif isinstance(v, ObjV) and v.cls == 'dd.autoref.Function':
+                out[n] = v.attrs['node'].z if 'node' in v.attrs else None
+                out[n + '_obj'] = v
+                out[n + '_none'] = getattr(v, 'none', BoolVal(False))
             else:
                 out[n] = v
         return out
 
-    def fresh_ret(self, c):
+    def fresh_ret(self, c, bound=None):
+        if c.ret == 'handle':
+            # a new dd.autoref.Function of the receiving manager; the contract speaks about its node
+            r = fresh('hnode')
+            owner = c.owner(bound) if getattr(c, 'owner', None) else bound.get('self')
+            h = ObjV('dd.autoref.Function', {'node': IntV(r), 'bdd': owner, 'manager': owner.attrs['_bdd']})
+            return h, r
+        if c.ret == 'opthandle':
+            r, n = fresh('hnode'), fresh('hnone', B)
+            owner = c.owner(bound) if getattr(c, 'owner', None) else bound.get('self')
+            h = ObjV('dd.autoref.Function', {'node': IntV(r), 'bdd': owner, 'manager': owner.attrs['_bdd']})
+            h.none = n
+            return h, (r, n)
+        if c.ret == 'optname':
+            r, n = fresh('rn', M.Name), fresh('rnn', B)
+            return NameV(r, n), (r, n)
         if c.ret == 'int':
             r = fresh('r')
             return IntV(r), r
@@ -1270,11 +1341,86 @@ class Exec:
             paths = nxt
         return paths
 
+    def closure_calls(self, st, p):
+        """calls of local closures (nested defs) inside a simple statement, in evaluation order"""
+        if not isinstance(st, (ast.Return, ast.Assign, ast.Expr)):
+            return []
+        out = []
+        for n in ast.walk(st):
+            if isinstance(n, ast.Call) and isinstance(n.func, ast.Name) and isinstance(p.env.get(n.func.id), ObjV) \
+                    and p.env[n.func.id].cls == 'closure':
+                out.append(n)
+        out.sort(key=lambda n: (n.lineno, n.col_offset))
+        return out
+
     def stmt(self, st, p):
+        calls = self.closure_calls(st, p)
+        if calls:
+            return self.stmt_with_closures(st, calls, p)
         m = getattr(self, 'st_' + type(st).__name__, None)
         if m is None:
             raise Unsupported(f'{type(st).__name__}@{st.lineno}')
         return m(st, p)
+
+    def stmt_with_closures(self, st, calls, p):
+        """evaluate the closure calls first (their bodies are inlined and may fork the path), then the statement with the
+        calls replaced by temporaries"""
+        import copy as _copy
+        paths = [p]
+        names = {}
+        for k, call in enumerate(calls):
+            tmp = f'__closure{k}@{call.lineno}'
+            names[(call.lineno, call.col_offset)] = tmp
+            nxt = []
+            for q in paths:
+                if q.status != 'run':
+                    nxt.append(q)
+                    continue
+                clo = q.env[call.func.id].attrs['node']
+                args = [self.ev(a, q) for a in call.args]
+                for q2, val in self.inline_node(clo, args, q):
+                    q2.env[tmp] = val
+                    nxt.append(q2)
+            paths = nxt
+
+        class R(ast.NodeTransformer):
+            def visit_Call(self_, n):
+                key = (n.lineno, n.col_offset)
+                if key in names and isinstance(n.func, ast.Name):
+                    return ast.copy_location(ast.Name(id=names[key], ctx=ast.Load()), n)
+                return self_.generic_visit(n)
+        st2 = R().visit(_copy.deepcopy(st))
+        out = []
+        for q in paths:
+            if q.status != 'run':
+                out.append(q)
+            else:
+                m = getattr(self, 'st_' + type(st2).__name__)
+                out += m(st2, q)
+        return out
+
+    def inline_node(self, fn, args, p):
+        """inline a nested def (closure over the enclosing environment)"""
+        params = [a.arg for a in fn.args.args]
+        if len(params) != len(args):
+            raise Unsupported('closure arity')
+        saved = p.env
+        p.env = dict(saved)
+        p.env.update(zip(params, args))
+        res = self.run_block(fn.body, [p])
+        out = []
+        for q in res:
+            if q.status in ('return', 'run'):
+                val = q.value if q.status == 'return' and q.value is not None else NONE()
+                q.status, q.value = 'run', None
+                env = dict(saved)
+                q.env = env
+                out.append((q, val))
+            else:
+                q.env = dict(saved)
+                out.append((q, None)) if False else None
+                self.side_paths.append(q)
+        return out
 
     def st_Expr(self, st, p):
         if isinstance(st.value, ast.Constant):
@@ -1522,7 +1668,12 @@ class Exec:
                 out += self.run_block(case.body, [rest])
                 rest = None
                 break
-            if isinstance(pat, ast.MatchClass) and not pat.patterns:
+            if isinstance(pat, ast.MatchOr) and all(isinstance(x, ast.MatchClass) and not x.patterns for x in pat.patterns):
+                names = [ast.unparse(x.cls) for x in pat.patterns]
+                c = BoolVal(any(self.match_class(subj, t) for t in names))
+            elif isinstance(pat, ast.MatchClass) and not pat.patterns and ast.unparse(pat.cls) in ('Function', 'dict', 'list', 'set'):
+                c = BoolVal(self.match_class(subj, ast.unparse(pat.cls)))
+            elif isinstance(pat, ast.MatchClass) and not pat.patterns:
                 t = ast.unparse(pat.cls)
                 if t == 'int':
                     ok = isinstance(subj, (IntV, BoolV))
@@ -1547,6 +1698,11 @@ class Exec:
         if rest is not None:
             out.append(rest)
         return out
+
+    def match_class(self, v, t):
+        return {'str': isinstance(v, (StrV, NameV)), 'bool': isinstance(v, BoolV), 'int': isinstance(v, (IntV, BoolV)),
+                'Function': isinstance(v, ObjV) and v.cls.endswith('.Function'), 'dict': isinstance(v, DictV),
+                'list': isinstance(v, ListV), 'set': isinstance(v, SetV)}.get(t, False)
 
     # ---- loops --------------------------------------------------------------------------------------------
     def loop_spec(self, st):
